@@ -177,10 +177,12 @@ struct Rec<'i> {
     over: u64,
     /// a hash computed INSIDE a callback is not the double SHA-256 of the right bytes (C10)
     cb_bad_hash: bool,
+    /// a conversion to the rust-bitcoin type made INSIDE a callback differs from the object's own fields (C19)
+    cb_bad_conv: bool,
 }
 impl<'i> Rec<'i> {
     fn new(base: &'i [u8], brk: i64, structured: bool) -> Self {
-        Rec { base, toks: vec![], evs: vec![], brk, nb: 0, structured, over: 0, cb_bad_hash: false }
+        Rec { base, toks: vec![], evs: vec![], brk, nb: 0, structured, over: 0, cb_bad_hash: false, cb_bad_conv: false }
     }
     /// callbacks beyond 3 * input length + 64 are counted, not stored (C01 bounds them by a small multiple of
     /// the input length: a runaway implementation must not exhaust memory before it can be reported), and the
@@ -220,6 +222,9 @@ impl<'i> Rec<'i> {
         write!(s, " nev={}", self.toks.len() as u64 + self.over).unwrap();
         if self.cb_bad_hash {
             s.push_str(" x_cbhash=0");
+        }
+        if self.cb_bad_conv {
+            s.push_str(" x_cbconv=0");
         }
         s
     }
@@ -322,6 +327,13 @@ impl<'i> Visitor for Rec<'i> {
                 sig: guard(vec![], || t.script_sig().to_vec()),
                 seq: t.sequence(),
             });
+            let ok = guard(false, || {
+                let o: bitcoin::OutPoint = t.prevout().into();
+                o.txid.to_byte_array()[..] == *t.prevout().txid() && o.vout == t.prevout().vout()
+            });
+            if !ok {
+                self.cb_bad_conv = true;
+            }
         }
         self.flow()
     }
@@ -337,6 +349,15 @@ impl<'i> Visitor for Rec<'i> {
         self.push_tok(format!("5,{},{},{},{}", vout, ws(self.base, t.as_ref()), t.value(), spkw));
         if self.structured {
             self.push_ev(Ev::TxOut { i: vout as u64, value: t.value(), spk: guard(vec![], || t.script_pubkey().to_vec()) });
+            // the conversions, made here on the object as the visitor receives it
+            let ok = guard(false, || {
+                let c: bitcoin::TxOut = t.into();
+                c.value.to_sat() == t.value() && c.script_pubkey.as_bytes() == t.script_pubkey()
+                    && t.as_bitcoin_script().as_bytes() == t.script_pubkey()
+            });
+            if !ok {
+                self.cb_bad_conv = true;
+            }
         }
         self.flow()
     }
